@@ -74,7 +74,50 @@ def new_approximator(prog, cls, backend):
     return o
 
 
+class _CountsV:
+    """np.bincount of a labelled output (components 1..n, each with at least one voxel; bin 0 = background,
+    possibly empty).  from_label: first label the vector starts at (after counts[1:] it is 1)."""
+
+    def __init__(self, side, from_label=0):
+        self.side, self.from_label = side, from_label
+
+
+class _BelowV:
+    """counts < k  (elementwise): which entries are below the bound"""
+
+    def __init__(self, counts, k):
+        self.counts, self.k = counts, k
+
+
+class _IdxV:
+    """indices of the true entries of a _BelowV (flatnonzero), shifted by `shift`: certainly none (`empty`),
+    or possibly the background bin only"""
+
+    def __init__(self, empty, shift=0):
+        self.empty, self.shift = empty, shift
+
+
+# classes of inputs this domain splits on by itself: tag -> {decision: what the input looks like}
+_INPUT_CLASSES = {"background-bin-below-bound": {True: "an array without a single background voxel (bin 0 of the counts is empty)", False: "an array with background voxels"}}
+
+
+def _cc_side(x):
+    """side name of a labelled output (the dispatcher's result or a library's own), else None"""
+    if isinstance(x, AArr) and str(x.side).startswith("CC_"):
+        return x.side
+    if isinstance(x, Tagged) and x.name.startswith("libout:"):
+        return x.name
+    return None
+
+
 class ApproxInterp(ArrInterp):
+    def get_attr(self, base, attr, node):
+        if isinstance(base, Tagged) and base.name.startswith("libout:") and attr in ("ravel", "flatten", "reshape"):
+            from .arrdom import _AMethod
+
+            return _AMethod(base, attr)
+        return super().get_attr(base, attr, node)
+
     def __init__(self, *a, **kw):
         super().__init__(*a, **kw)
         self.root.cca_calls = []
@@ -109,9 +152,42 @@ class ApproxInterp(ArrInterp):
             return (Tagged("libout:" + name, [a0]), Sym("N"))
         if name in ("max", "builtin:max", "numpy.max", "numpy.maximum"):
             return Tagged("max", args)
+        # voxel counts per component of a labelled output
+        if name == "numpy.bincount" and args and _cc_side(args[0]) and not (set(kwargs) - {"minlength"}):
+            return _CountsV(_cc_side(args[0]))
+        if name == "numpy.flatnonzero" and len(args) == 1 and isinstance(args[0], _BelowV):
+            b = args[0]
+            if b.k <= 1 and b.counts.from_label >= 1:
+                return _IdxV(True)  # every component has at least one voxel: none is below a bound of 0 or 1
+            if b.k <= 1 and b.counts.from_label == 0:
+                return _IdxV(None)  # only the background bin can be empty
+            return Unknown("components below the size bound")
         return super().external_call(name, args, kwargs, node)
 
+    def subscript_hook(self, base, idx, node):
+        if isinstance(base, _CountsV) and isinstance(idx, slice) and idx.step in (None, 1) and idx.stop is None and isinstance(idx.start, int) and idx.start >= 0:
+            return _CountsV(base.side, base.from_label + idx.start)
+        return super().subscript_hook(base, idx, node)
+
+    def compare_hook(self, op, l, r, node):
+        if isinstance(l, _CountsV) and isinstance(r, int) and not isinstance(r, bool) and isinstance(op, (ast.Lt, ast.LtE)):
+            return _BelowV(l, r if isinstance(op, ast.Lt) else r + 1)
+        return super().compare_hook(op, l, r, node)
+
+    def binop_hook(self, op, l, r, node):
+        if isinstance(l, Sym) and (l.name == "N" or l.name.startswith("N_")) and isinstance(r, int) and not isinstance(r, bool) and isinstance(op, (ast.Add, ast.Sub)):
+            # a component count moved by a known amount: the same count, or a different one
+            return l if r == 0 else Tagged("count-offset", [l, r if isinstance(op, ast.Add) else -r])
+        if isinstance(l, _IdxV) and isinstance(r, int) and isinstance(op, (ast.Add, ast.Sub)):
+            return _IdxV(l.empty, l.shift + (r if isinstance(op, ast.Add) else -r))
+        return super().binop_hook(op, l, r, node)
+
     def call_builtin(self, name, args, kwargs, node):
+        if name == "len" and len(args) == 1 and isinstance(args[0], _IdxV):
+            if args[0].empty is True:
+                return 0
+            # the background bin may or may not be counted as "too small": one entry or none
+            return 1 if self.decide(node, self.root.__dict__.setdefault("_bg_small", Unknown("background-bin-below-bound"))) else 0
         if name == "int" and len(args) == 1 and isinstance(args[0], Sym) and args[0].name.startswith("N_"):
             return args[0]  # a component count as a python int is that count
         if name in ("int", "float") and len(args) == 1 and isinstance(args[0], Tagged) and args[0].name in ("max", "min", "amax"):
@@ -123,6 +199,10 @@ class ApproxInterp(ArrInterp):
     def arr_method(self, a, name, args, kwargs, node):
         if isinstance(a, AArr) and name == "max":
             return Tagged("amax", [a])
+        if _cc_side(a) and name in ("ravel", "flatten") and not args and not kwargs:
+            return a  # the same voxels as one long vector (for counting)
+        if _cc_side(a) and name == "reshape" and args in ([-1], [(-1,)]):
+            return a
         if isinstance(a, AArr) and name == "astype":
             out = super().arr_method(a, name, args, kwargs, node)
             if isinstance(out, AArr):
@@ -306,12 +386,37 @@ def check_library_calls(ctx: Ctx):
     want_lib = {"cc3d": "cc3d.connected_components", "scipy": ("scipy.ndimage.label", "scipy.ndimage.measurements.label")}
     for member in ("cc3d", "scipy"):
         arr = AArr("IN", False)
-        it = ApproxInterp(prog, f, {arr_p: arr, be_p: EnumSym(be_cls, member)})
-        out = it.run()
         construct = f"{f.qual}:backend={member}"
-        if out.decisions or out.kind != "return" or len(it.root.lib_calls) != 1:
-            ctx.decide("R05.2", f, out.node, construct, "exactly one library call", None if out.decisions else False, {"outcome": out.kind, "calls": [c[0] for c in it.root.lib_calls]})
+        holder = []
+
+        def make(prefix, arr=arr, member=member):
+            it_ = ApproxInterp(prog, f, {arr_p: arr, be_p: EnumSym(be_cls, member)}, prefix=prefix)
+            holder.append(it_)
+            return it_
+
+        try:
+            outs = enumerate_paths(make, max_paths=8)
+        except Undecided:
+            outs = []
+        # the only accepted split is over a class of inputs this domain names itself (an array without
+        # background voxels); every class is judged, any other decision leaves the rule undecided
+        named = all(isinstance(c, Unknown) and c.tag in _INPUT_CLASSES for o_ in outs for (_, c, _d) in o_.decisions)
+        if not outs or not named or any(o_.kind != "return" or len(i_.root.lib_calls) != 1 for o_, i_ in zip(outs, holder)):
+            o_ = outs[0] if outs else None
+            ctx.decide("R05.2", f, o_.node if o_ else f.node, construct, "exactly one library call", None if (not outs or not named or any(o.decisions for o in outs)) else False, {"outcome": o_.kind if o_ else "too many paths", "calls": [c[0] for c in holder[0].root.lib_calls] if holder else []})
             continue
+        bad_path = None
+        if len(outs) > 1:
+            for o_, i_ in zip(outs, holder):
+                rv_ = o_.value
+                if isinstance(rv_, tuple) and len(rv_) == 2 and isinstance(rv_[1], Tagged) and rv_[1].name == "count-offset":
+                    bad_path = (o_, " and ".join(_INPUT_CLASSES[c.tag][d] for (_, c, d) in o_.decisions))
+                    break
+        if bad_path is not None:
+            o_, cls_txt = bad_path
+            ctx.decide("R05.2", f, o_.node, construct + ":return", "labelled array and count are returned as the library produced them (no cast to the input dtype)", False, {"input": cls_txt, "returned": repr(o_.value)})
+            continue
+        it, out = holder[0], outs[0]
         name, args, kwargs, node = it.root.lib_calls[0]
         wl = want_lib[member]
         ctx.decide("R05.2", f, node, construct + ":library", f"backend {member} calls its own library", name == wl or name in wl, {"called": name})
